@@ -47,6 +47,7 @@ func checkC18(c *Check, a *Anchors) {
 	c17PrefixUnderLock(c, a)
 	noInPlaceMutationOfShared(c, a, "no-in-place-mutation")
 	copierNeverAliases(c, a)
+	callObjectPerGoroutine(c, a)
 	templatePerString(c, a)
 	writerSerialised(c, a)
 	c08CopyExhaustive(c, a) // a "copy" that keeps a mutable reference of the definition is state shared by every concurrent run of the task
